@@ -252,6 +252,49 @@ def annotation_gaps(text, info, names, degraded):
     return out
 
 
+def callee_closure(text, tab, roots, maxdef=6):
+    """verified exec functions reachable from `roots` (table names) through name-resolved calls"""
+    plain = extract.strip_generated(text)
+    mods = [(m.start(), m.group(1)) for m in re.finditer(r'^(?:pub(?:\([a-z]+\))? )?mod (\w+) \{', plain, flags=re.M)]
+    bodies = {}       # (module, short) -> set of identifiers mentioned
+    defs = {}         # short -> number of definitions with a body
+    for m in re.finditer(r'\bfn\s+([A-Za-z0-9_]+)', plain):
+        b = plain.find('{', m.end())
+        sc = plain.find(';', m.end())
+        if b < 0 or (0 <= sc < b):
+            continue
+        try:
+            e = extract.match_brace(plain, b)
+        except Exception:
+            continue
+        encl = [x for x in mods if x[0] <= m.start()]
+        mname = encl[-1][1] if encl else ''
+        seg = plain[b:e]
+        called = set(re.findall(r'\b([a-z_][A-Za-z0-9_]*)\s*(?:::<[^>]*>)?\s*\(', seg))                 # f(..), x.f(..), T::f(..)
+        called |= set(re.findall(r'::([a-z_][A-Za-z0-9_]*)\b(?!\s*(?:::|\(|<))', seg))                    # T::f passed as a function value
+        bodies.setdefault((mname, m.group(1)), set()).update(called - {'clone', 'default', 'fmt', 'eq', 'from', 'into', 'is_empty', 'len', 'push', 'insert', 'contains', 'iter', 'into_iter', 'map', 'ok', 'unwrap', 'expect'})
+        defs[m.group(1)] = defs.get(m.group(1), 0) + 1
+    by_short = {}
+    for n, v in tab.items():
+        if n.startswith('kani:') or '__nec_' in n or v.get('mode') != 'exec':
+            continue
+        by_short.setdefault(n.split('::')[-1], []).append(n)
+    seen = set(roots)
+    todo = list(roots)
+    added = []
+    while todo:
+        n = todo.pop()
+        parts = n.split('::')
+        for w in bodies.get((parts[0], parts[-1]), ()):
+            if w in by_short and defs.get(w, 0) <= maxdef:
+                for c in by_short[w]:
+                    if c not in seen:
+                        seen.add(c)
+                        todo.append(c)
+                        added.append(c)
+    return sorted(added)
+
+
 def known_findings(pid):
     out = []
     p = os.path.join(VERIF, 'known_findings.txt')
@@ -407,6 +450,10 @@ def main():
         return undecided('verifier-did-not-run-to-completion:' + re.sub(r'\s+', '_', msg)[:200])
     tab = runverus.function_table(run)
     degraded = info.get('degraded', [])
+    # a trusted (external_body) function whose body changed is no longer covered by the review its trust rested on
+    for tc in info.get('trusted_changed', []):
+        degraded = degraded + [tc + '#0']
+        degrade_why[tc + '#0'] = 'the body of this trusted (never verified) function differs from the reviewed one'
     if degraded:
         roots = set()
         for pat, kind in obligations.OBLIGATIONS[pid]:
@@ -456,6 +503,14 @@ def main():
         for n in hits:
             if (n, kind) not in obl:
                 obl.append((n, kind))
+    # callee closure: a property is only as good as the contracts of everything its functions call, and those callees'
+    # bodies are obligations of the property too.  Calls are resolved by name (over-approximation); names with many
+    # definitions (from_cbor_value, to_cbor_value, from_i64, new, ...) are not followed automatically - those callees are
+    # listed explicitly in obligations.py.
+    auto = callee_closure(text, tab, [n for n, k in obl if k == 'body'])
+    for n in auto:
+        if (n, 'body') not in obl and (n, 'lemma') not in obl:
+            obl.append((n, 'body'))
     def ok(n, k):
         return (not tab[n]['success']) if k == 'nec' else tab[n]['success']
     failed = [(n, k) for n, k in obl if not ok(n, k)]
